@@ -264,6 +264,82 @@ func c12units(tier string) []mc.Unit {
 		r.AddTransitions(cnt)
 		r.Sample("for every s over {A,B} up to the bound, RotateSequence(rotation k of s) == RotateSequence(s) for every k")
 	}})
+	// structured sweep: every length 1..300 and geometrically beyond x the shapes of dnaShapes; each string and its
+	// rotations by small offsets in both directions (the canonical start close to either end of the stored string)
+	lens := sweepLengths(1, tier2(tier, 300, 600), tier2(tier, 70000, 200000))
+	for part := 0; part < 8; part++ {
+		part := part
+		us = append(us, mc.Unit{Name: fmt.Sprintf("sweep/part=%d", part), Weight: 60, Run: func(r *mc.Recorder) {
+			cnt := int64(0)
+			for i, n := range lens {
+				if i%8 != part {
+					continue
+				}
+				shapes := dnaShapes(n)
+				offs := []int{1, 2, 3, 5, 8, 13, 21, 22, 23, 24, 25, 33, 40, 64, n / 2}
+				if n > 5000 {
+					offs = []int{1, 7, 22, 23, 24, 64, n / 2}
+					if len(shapes) > 12 {
+						shapes = append(shapes[:6:6], shapes[len(shapes)-6:]...)
+					}
+				}
+				for _, sh := range shapes {
+					c12check(r, sh.s, false)
+					cnt++
+					var c0 string
+					if p := catch(func() { c0 = seqhash.RotateSequence(sh.s) }); p != "" {
+						continue
+					}
+					for _, k := range offs {
+						for _, kk := range []int{k, n - k} {
+							if kk <= 0 || kk >= n {
+								continue
+							}
+							// the canonical form itself, stored starting kk letters later
+							rot := c0[kk:] + c0[:kk]
+							var c string
+							if p := catch(func() { c = seqhash.RotateSequence(rot) }); p != "" {
+								r.Failf("no-panic", fmt.Sprintf("%s, %d letters, canonical form rotated by %d", sh.shape, n, kk), nil, "a rotation", "panic: "+p)
+								continue
+							}
+							cnt++
+							if c != c0 {
+								r.Failf("orbit", fmt.Sprintf("%s, %d letters, canonical form rotated by %d", sh.shape, n, kk), nil, q(c0), q(c))
+							}
+						}
+					}
+				}
+			}
+			r.Eval(cnt)
+			r.AddStates(cnt)
+			r.AddTransitions(cnt)
+			r.AddNontrivial(cnt)
+			r.Bound("sweep", fmt.Sprintf("%d lengths (every length to %d, then +7%% steps to %d) x about 20 shapes x rotations by small offsets from either end", len(lens), tier2(tier, 300, 600), lens[len(lens)-1]))
+		}})
+	}
+	// every byte value at the start, in the middle and at the end of a word
+	us = append(us, mc.Unit{Name: "every-byte", Weight: 10, Run: func(r *mc.Recorder) {
+		cnt := int64(0)
+		for b := 0; b < 256; b++ {
+			ch := string([]byte{byte(b)})
+			for _, s := range []string{ch + "GATTACA", "GAT" + ch + "TACA", "GATTACA" + ch, ch, ch + ch + "A" + ch, "GATTACA" + ch + ch, "\n" + ch} {
+				c12check(r, s, true)
+				cnt++
+				for k := 1; k < len(s); k++ {
+					var c, c0 string
+					if p := catch(func() { c0 = seqhash.RotateSequence(s); c = seqhash.RotateSequence(s[k:] + s[:k]) }); p == "" && c != c0 {
+						r.Failf("orbit", q(s)+" rot "+fmt.Sprint(k), nil, q(c0), q(c))
+					}
+					cnt++
+				}
+			}
+		}
+		r.Eval(cnt)
+		r.AddStates(cnt)
+		r.AddTransitions(cnt)
+		r.AddNontrivial(cnt)
+		r.Bound("every-byte", "each of the 256 byte values at the start, in the middle and at the end of a 7-letter word (7 layouts), all rotations")
+	}})
 	return us
 }
 
